@@ -216,6 +216,9 @@ pub struct Stats {
     pub peak_fds: i64,
     pub faults_requested: usize,
     pub faults_reached: usize,
+    /// executions re-run because the wall-clock watchdog killed them (machine stall)
+    #[serde(default)]
+    pub watchdog_reruns: usize,
     pub samples: Vec<String>,
 }
 
@@ -247,6 +250,7 @@ impl Stats {
         self.peak_fds = self.peak_fds.max(o.peak_fds);
         self.faults_requested += o.faults_requested;
         self.faults_reached += o.faults_reached;
+        self.watchdog_reruns += o.watchdog_reruns;
         for s in o.samples {
             if self.samples.len() < 6 {
                 self.samples.push(s);
@@ -295,12 +299,22 @@ pub type Judge<'a> = &'a (dyn Fn(&Worker, &Scenario, &Exec) -> Judgement + Sync)
 /// one supervised execution + snapshot + judgement, recorded into stats
 pub fn run_one(w: &Worker, scen: &Scenario, spec: &RunSpec, judge: Judge, st: &mut Stats) -> Option<Exec> {
     let mut before = Snap::new();
-    let r = w.prepare(scen).and_then(|_| {
-        if SNAP_BEFORE.load(std::sync::atomic::Ordering::Relaxed) {
-            before = w.snapshot(scen);
+    let mut tries = 0;
+    let r = loop {
+        let r = w.prepare(scen).and_then(|_| {
+            if SNAP_BEFORE.load(std::sync::atomic::Ordering::Relaxed) {
+                before = w.snapshot(scen);
+            }
+            w.exec(scen, spec)
+        });
+        // killed by the wall-clock watchdog: a stall of the machine, unless it repeats from a fresh sandbox
+        if matches!(&r, Ok(res) if res.watchdog) && tries < crate::scen::WATCHDOG_RETRIES {
+            tries += 1;
+            st.watchdog_reruns += 1;
+            continue;
         }
-        w.exec(scen, spec)
-    });
+        break r;
+    };
     match r {
         Ok(res) => {
             let snap = w.snapshot(scen);
